@@ -26,6 +26,12 @@ def main(argv):
         print("refusing: /repo has uncommitted changes")
         return 2
     summary = {}
+    # the evidence files must stay those of the unchanged tree: keep a copy and put it back afterwards
+    import shutil
+    import tempfile
+
+    keep = tempfile.mkdtemp(prefix="evidence_keep_", dir=os.path.join(ROOT, "work"))
+    shutil.copytree(os.path.join(ROOT, "evidence"), os.path.join(keep, "evidence"))
     for name in names:
         d = os.path.join(SEEDED, name)
         meta = json.load(open(os.path.join(d, "meta.json")))
@@ -50,6 +56,9 @@ def main(argv):
         summary[name] = {"property": prop, "fired": fired, "caught_by_own_check": fired.get(prop, {}).get("exit") == 1}
         with open(os.path.join(d, "result.json"), "w") as f:
             json.dump(summary[name], f, indent=1)
+    shutil.rmtree(os.path.join(ROOT, "evidence"))
+    shutil.copytree(os.path.join(keep, "evidence"), os.path.join(ROOT, "evidence"))
+    shutil.rmtree(keep)
     # regenerate Gen from the unchanged tree
     sh(f"cd {ROOT} && /venv/bin/python -m vlib.regen")
     print(json.dumps({k: v.get("caught_by_own_check") for k, v in summary.items()}, indent=1))
